@@ -338,13 +338,11 @@ class Monitor:
     def _hook(self, opt, space, fn):
         k = len(self.hooks)
         h = {'ids_ok': opt is self.opt and space is self.space and fn is self.fn, 'n_args': 3}
-        if self.light:
-            h.update(self.snap(opt, space))
-            self.hooks.append(h)
-            return
-        self.check_population(space, 'hook %d' % k)
-        if k >= 1:
-            self.check_best_feasible(space, 'hook %d' % k)
+        if not self.light:
+            self.check_population(space, 'hook %d' % k)
+            if k >= 1:
+                self.check_best_feasible(space, 'hook %d' % k)
+        h['pos0'] = [np.array(a.position, copy=True) for a in space.agents]
         if self.cfg.get('hook') == 'move' and self.cfg['space'] != 'tree':
             for i, a in enumerate(space.agents):
                 if (i + k) % 2 == 0:
@@ -356,6 +354,9 @@ class Monitor:
                     else:
                         a.position = new
         h.update(self.snap(opt, space))
+        if self.light:
+            self.hooks.append(h)
+            return
         if self.cfg['space'] == 'tree':
             exp = []
             for t in getattr(space, 'trees', []):
@@ -405,7 +406,7 @@ class Monitor:
         if self.cfg['objective'] == 'float_max' and base.startswith('best-position'):
             return 'FLOAT_MAX-objective'
         if base.endswith('nan'):
-            org = self.fp.get('invalid') or self.fp.get('divide by zero') or 'unknown'
+            org = self.fp.get('invalid value') or self.fp.get('divide by zero') or 'unknown'
             return '%s@%s' % (base, org)
         return base
 
@@ -638,19 +639,24 @@ def in_c03_scope(cfg):
         return False, 'population below the minimum'
     if cfg['optimizer'] == 'WCA' and cfg['n_agents'] < (cfg.get('hyperparams') or {}).get('nsr', 2):
         return False, 'population below the minimum'
-    if cfg['optimizer'] == 'ABC' and cfg.get('draws') in ('high',):
+    if cfg['optimizer'] == 'ABC' and cfg.get('draws') in ('high', 'alt', 'mixed'):
         return False, 'unfair draw stream for the onlooker loop'
     return True, ''
 
 
 def failure_class(mon):
     """Input class of a crash / hang, decided from what was observed (not from the configuration)."""
+    if mon.first_bad is not None:
+        return 'after-nan-evaluation'
     vals = [float(r['val']) for r in mon.evals if r is not None]
     n = mon.cfg['n_agents']
     last = vals[-n:] if vals else []
-    if last and all(v == last[0] for v in last) and len(last) >= 1:
-        if all(v == 0 for v in last):
-            return 'zero-fitness'
+    name = mon.cfg['optimizer']
+    if name == 'BHA' and last and sum(last) == 0:
+        return 'zero-cost'                       # sum of the fitnesses evaluated by the update
+    if name == 'WCA' and last and sum(last[:getattr(mon.opt, 'nsr', 2)]) == 0:
+        return 'zero-cost'                       # sum of the first nsr fitnesses
+    if last and all(v == last[0] for v in last):
         return 'equal-fitness'
     if any(v > 0 for v in vals) and any(v < 0 for v in vals):
         return 'sign-changing'
@@ -837,7 +843,7 @@ def check_c20(mon):
                     d = mon.dumps[t]
                     oob = [r for r in mon.evals[mon.dumps[t - 1]['n_evals']:d['n_evals']] if r['why'] == 'out-of-box']
                     cause = (':after-%s-out-of-box' % oob[0]['site']) if oob else ''
-                    mon.v('C20', '%s:%s-fitness-increased%s' % (name, 'rank' if name in GREEDY_RANK else 'agent', cause),
+                    mon.v('C20', '%s:%s-fitness-increased%s' % ('HS' if name in GREEDY_RANK else name, 'rank' if name in GREEDY_RANK else 'agent', cause),
                           '%s %d fitness increased from %r to %r between records %d and %d' % ('rank' if name in GREEDY_RANK else 'agent', i, x, y, t - 1, t), y, '<= %r' % x)
                     return
 
@@ -976,7 +982,7 @@ def check_c05(cfg, mon1):
                     'observed': 'unchanged', 'expected': 'consumed'})
     lb, ub = bounds(cfg)
     if cfg['space'] == 'hyper' or any(u > l for l, u in zip(lb, ub)):
-        if m3.outcome['status'] == 'ok' and m3.hooks and mon1.hooks and all(eqarr(a, b) for a, b in zip(m3.hooks[0]['pos'], mon1.hooks[0]['pos'])) \
+        if m3.outcome['status'] == 'ok' and m3.hooks and mon1.hooks and all(eqarr(a, b) for a, b in zip(m3.hooks[0]['pos0'], mon1.hooks[0]['pos0'])) \
                 and run_digest(m3) == d1:
             res.append({'property': 'C05', 'key': 'different-seeds-same-run', 'what': 'seeds %d and %d give identical runs' % (cfg['seed'], cfg['seed'] + 1),
                         'observed': 'identical', 'expected': 'different'})
